@@ -38,7 +38,7 @@ class Proc:
 
 
 class NetWorld:
-    def __init__(self, seed=0, delay_ms=(0, 0), pub_hwm=20, push_hwm=50, fifo=True, sub_join_ms=(0, 0), bandwidth_mbps=None):
+    def __init__(self, seed=0, delay_ms=(0, 0), pub_hwm=None, push_hwm=50, fifo=True, sub_join_ms=(0, 0), bandwidth_mbps=None):
         self.rng = random.Random(seed)
         self.now = 10 ** 12
         self.delay_ms = delay_ms
@@ -143,6 +143,20 @@ class NetWorld:
                     self.stats['dropped_joining'] = self.stats.get('dropped_joining', 0) + 1
                     continue
                 if simzmq.prefix_match(sub.subs, parts[0]):
+                    # a PUB->SUB pipe holds SNDHWM (publishing end) + RCVHWM (subscribing end) whole messages, zmq's defaults
+                    # being 1000 each; a publish that finds it full is dropped for that subscriber without any error.
+                    # (Real transports add kernel buffers on top; leaving them out only makes the limit bite a little earlier.)
+                    cap = self.pub_hwm if self.pub_hwm is not None else \
+                        int(sock.opts.get(simzmq.SNDHWM, 1000)) + int(sub.opts.get(simzmq.RCVHWM, 1000))
+                    queued = len(sub.inbox) + sum(1 for x in self.inflight if x[2] is sub)
+                    if getattr(sub, 'hwm_blocked', False) and queued <= cap - (cap + 1) // 2:
+                        sub.hwm_blocked = False    # libzmq re-opens a full pipe only after the reader has taken half of it (low water mark)
+                    if queued >= cap:
+                        sub.hwm_blocked = True
+                    if getattr(sub, 'hwm_blocked', False):
+                        self.stats['dropped_hwm'] += 1
+                        self.stats['hwm_cap'] = cap
+                        continue
                     self._send_to(sock, sub, parts)
         elif sock.type == simzmq.PUSH:
             pull = self.binds.get(sock.key, {}).get(simzmq.PULL)
@@ -167,9 +181,6 @@ class NetWorld:
             _, _, dst, parts, _src, _leave = heapq.heappop(self.inflight)
             if dst.closed or getattr(dst, 'dead', False):
                 self.stats['dropped_dead'] += 1
-                continue
-            if dst.type == simzmq.SUB and len(dst.inbox) >= self.pub_hwm:
-                self.stats['dropped_hwm'] += 1
                 continue
             dst.inbox.append(parts)
             self.stats['delivered'] += 1
